@@ -124,6 +124,20 @@ def add_recalc(rng, tree, names=(), syms=()):
     kids = [sub[1]] if sub[0] == "powc" else sub[2]
     late = []
     for i, k in enumerate(kids):
+        if k[0] == "leaf" and rng.random() < 0.35:
+            # a VALID re-assignment of the operand's unit: the recalculated result follows it.
+            # Kept dimension-compatible for +/- (same symbols, other written order) and free
+            # (another unit altogether) for the other operators
+            u = X.units_from_json(k[1])
+            if sub[0] == "node" and sub[1] in ("add", "sub"):
+                u2 = list(reversed(u))
+            else:
+                u2 = [(s_, e) for s_, e in u] + [(rng.choice([x for x in X.SYMS[:8] if x not in dict(u)]),
+                                                 F(rng.choice([-2, -1, 1, 2])))]
+                rng.shuffle(u2)
+            if all(s_ not in names for s_, _ in u2):
+                late.append([i, "assign", X.units_json(u2), X.unit_string(u2, rng.choice(["*", X.DOT]))])
+                continue
         if k[0] != "const" and rng.random() < 0.8:
             kind, arg = one_fault(rng, k, names, syms)
             late.append([i, kind, arg])
@@ -208,7 +222,9 @@ def probes(defs=()):
             ["node", "mul", [["fault", x, "ctor", "m2"], t]],
             ["node", "mul", [["fault", x, "op-type", "add-str"], t]],
             ["recalc", ["node", "div", [x, t]], [[0, "unit", "m2"], [1, "unit", "s^"]]],
-            ["recalc", ["powc", x, 3, 1], [[0, "unit", "(m"]]]]
+            ["recalc", ["powc", x, 3, 1], [[0, "unit", "(m"]]],
+            ["recalc", ["node", "div", [x, t]], [[0, "assign", [["kg", 1, 1], ["m", 2, 1]], "kg*m^2"]]],
+            ["recalc", ["powc", x, -2, 1], [[0, "assign", [["s", 1, 1]], "s"]]]]
     for k in (F(2), F(-1), F(3)):
         for typ in X.num_types_for(k):
             out.append(["powc", ["node", "div", [x, t]], k.numerator, k.denominator, typ])
